@@ -213,7 +213,7 @@ fn item_strategy() -> BoxedStrategy<DCase> {
 pub fn run(g: &mut Global) {
     g.rule = "exhaustive: all 22 indicators x periods 1..=4 x every history of length 0..=depth over {1, 4, bar 2.5, Reset} with a checkpoint (bincode serialize + deserialize) after it — so every prefix of every history is a checkpoint position — and an 8-input continuation; random: histories of Next/Reset/Checkpoint (chained round-trips: the restored copy replaces the live one while a never-serialized shadow runs in lock-step), final checkpoint classes forced (warming up, exactly full, wrapped, just reset), special values in some histories; DataItem round-trips. Oracle: original and restored agree on every continuation output within 1e-12 relative, same Display/period()/multiplier(), re-serialization gives identical bytes. Non-trivial = at least one checkpoint that is not on a fresh instance and a continuation of >= n+2 inputs; distinct by hash of (kind, parameters, history incl. checkpoint positions, continuation).".into();
     g.assumptions = vec!["serde format: bincode 1.3 (the format the repository's own serde test uses)".into(), "agreement within 1e-12 relative; NaN = NaN".into()];
-    let depth = g.tier.pick(5usize, 7usize);
+    let depth = g.tier.pick(7usize, 9usize);
     let mut offs = vec![0u64];
     for d in 0..=depth {
         offs.push(offs[d] + ipow(4, d));
@@ -235,7 +235,7 @@ pub fn run(g: &mut Global) {
         &check,
     );
     let cap = g.tier.pick(256usize, 2048usize);
-    g.random("random", g.tier.pick(10000, 120000), &move || strategy(cap, false), &check);
+    g.random("random", g.tier.pick(40000, 300000), &move || strategy(cap, false), &check);
     if g.tier == Tier::Thorough {
         g.random("deep", 3000, &move || strategy(64, true), &check);
     }
